@@ -72,8 +72,10 @@ def rhs_text(ty, w, ext, var, pool, b):
         o = pool.take(1)
         return '', 'b[%d]' % o, [E.inp(b, o)] * m
     if k == 'lit':
-        v = E.const(w.rhs[1], ty) if ty.kind == 'int' else E.const(w.rhs[1], INT).cast(ty)   # int literal converted to T
-        return '', '%d' % w.rhs[1], [v] * m
+        # literal of the element type (an int literal on a float tensor is converted at run time or folded by the compiler
+        # depending on the view type: not a stable uninterpreted term)
+        lit = '%d' % w.rhs[1] if ty.kind == 'int' else ('%d.0f' % w.rhs[1] if ty.bits == 32 else '%d.0' % w.rhs[1])
+        return '', lit, [E.const(w.rhs[1], ty)] * m
     if k == 'tensor':
         d, o = operand(ext, var, w.rhs[1])
         return d, var, [E.inp(b, o + j) for j in range(m)]
@@ -170,6 +172,7 @@ def elem_assign_case(ty, shape, cfg, dst, op):
 def ops_for(ty, rhs_kind):
     if ty.kind == 'int':
         return ['=', '+=', '-='] + (['*='] if rhs_kind == 'lit' else [])
+    if rhs_kind == 'lit': return ['=', '+=', '-=', '*=']      # x /= literal is x * (1/literal) with a compiler-folded reciprocal: left out
     return ['=', '+=', '-=', '*=', '/=']
 
 def other_slice(rng, ext, fixed=None):
